@@ -28,6 +28,7 @@ import (
 	"bytes"
 	"fmt"
 	"go/types"
+	"os"
 	"unsafe"
 
 	"golang.org/x/tools/go/ssa"
@@ -36,6 +37,8 @@ import (
 )
 
 type value interface{}
+
+var debugValues = os.Getenv("SYMGO_DEBUG") != ""
 
 type tuple []value
 
@@ -252,6 +255,9 @@ func equalsConcrete(t types.Type, x, y value) bool {
 	// Since map, func and slice don't support comparison, this
 	// case is only reachable if one of x or y is literally nil
 	// (handled in eqnil) or via interface{} values.
+	if debugValues {
+		panic(rtPanic(fmt.Sprintf("runtime error: comparing uncomparable type %s (%T=%s vs %T=%s)", t, x, toString(x), y, toString(y))))
+	}
 	panic(rtPanic(fmt.Sprintf("runtime error: comparing uncomparable type %s", t)))
 }
 
